@@ -33,7 +33,12 @@ fn loop_class(p: &P26, lp: usize) -> String {
         feats.push("defer_tick_lazy");
     }
     if has(&|o| *o == Op26::BatchLazy) {
-        feats.push(if has(&|o| *o == Op26::Batch) || has(&|o| *o == Op26::Defer) { "batch_lazy" } else { "only-lazy-triggers" });
+        if has(&|o| *o == Op26::Batch) || has(&|o| *o == Op26::Defer) {
+            feats.push("batch_lazy");
+        } else {
+            // nothing non-lazy can ever trigger this loop
+            return format!("{}+only-lazy-triggers", if d == 1 { "root-loop" } else { "nested-loop" });
+        }
     }
     format!("{}{}", if d == 1 { "root-loop" } else { "nested-loop" }, if feats.is_empty() { String::new() } else { format!("+{}", feats.join("+")) })
 }
@@ -75,39 +80,23 @@ pub fn judge(rep: &mut Reporter, m: &Manifest, reg: &Registry, p: &P26, h: &Hist
         }
     }
     let tap_loop: BTreeMap<u16, usize> = p.taps.iter().copied().collect();
-    let mut capped = false;
+    let mut capped: Option<String> = None;
     if let Err(msg) = &res {
         if msg.contains(SIZE_PANIC) {
             rep.count("history_skipped_trace_too_big");
             return 0;
         }
-        rep.eval();
         if msg.contains(CAP_PANIC) {
-            capped = true;
-            // which tap ran over its cap
-            let over = got.iter().find(|(k, v)| v.len() as u32 > want.taps.get(k).map(|x| x.len()).unwrap_or(0) as u32 + 2).map(|(k, v)| (*k, v.len()));
-            let (site, tick, n) = over.map(|((s, t), n)| (s, t, n)).unwrap_or((0, ticks_done as u32, 0));
-            let lp = tap_loop.get(&site).copied().unwrap_or(0);
-            rep.violation(
-                &format!("C26|loop|does-not-reach-fixpoint|{}", loop_class(p, lp)),
-                &format!(
-                    "{} tick {tick}: the body of loop {lp} ran {n} times where the reference stops after {} runs (step cap = reference + 2 reached)",
-                    p.prog_id,
-                    want.taps.get(&(site, tick)).map(|x| x.len()).unwrap_or(0)
-                ),
-                case_json(m, p, h, json!({"tick": tick, "tap": site, "loop": lp, "observed_runs": n, "reference_runs": want.taps.get(&(site, tick)).map(|x| x.len()).unwrap_or(0)})),
-            );
+            capped = Some(msg.clone());
         } else {
+            rep.eval();
             rep.violation(
                 "C26|run|panic",
                 &format!("{} panicked in tick {}: {}", p.prog_id, ticks_done, msg),
                 case_json(m, p, h, json!({"panic": msg, "tick": ticks_done})),
             );
+            nviol += 1;
         }
-        nviol += 1;
-    }
-    if capped {
-        return nviol;
     }
     // taps: the first deviation in execution order (a deviation can only be caused by what ran before it)
     let mut iterated = false;
@@ -174,13 +163,22 @@ pub fn judge(rep: &mut Reporter, m: &Manifest, reg: &Registry, p: &P26, h: &Hist
             let lp = tap_loop.get(&site).copied().unwrap_or(0);
             let w = want.taps.get(&(site, t)).unwrap_or(&empty);
             let g = got.get(&(site, t)).unwrap_or(&empty);
+            // the run was stopped by the step cap (reference + 2 body runs) at this very tap: it does not stop
+            let kind = if capped.is_some() && kind != "window-content-differs" && g.len() >= w.len() + 3 { "does-not-reach-fixpoint" } else { kind };
             rep.violation(
                 &format!("C26|tap|{kind}|{}", loop_class(p, lp)),
                 &format!("{} tick {t}: tap {site} in loop {lp} (depth {}) saw runs {:?}, the reference of the documented semantics gives {:?}", p.prog_id, p.depth(lp), g, w),
                 case_json(m, p, h, json!({"tick": t, "tap": site, "loop": lp, "observed_runs": g, "reference_runs": w})),
             );
             nviol += 1;
+        } else if let Some(msg) = &capped {
+            rep.eval();
+            rep.violation("C26|loop|does-not-reach-fixpoint|unattributed", &format!("{}: step cap reached without a deviating tap: {msg}", p.prog_id), case_json(m, p, h, json!({"panic": msg})));
+            nviol += 1;
         }
+    }
+    if capped.is_some() {
+        return nviol;
     }
     // body-run counts read from the runtime's own metrics
     let lr = rec.0.loop_runs.borrow();
